@@ -59,6 +59,7 @@ static void mon_stop_effects(int s) {
     m->st = S_STOPPED; mt_del_all(s);
 }
 
+static int owed_excused(int s, int k);
 static void cb_enter(int s, int kind) {
     mon_flush();
     mod_t *m = &MD[s];
@@ -89,7 +90,7 @@ static void cb_enter(int s, int kind) {
             for (int i = 0; i < m->nmb; i++) if (m->mb[i].kind == 0 && MSG[m->mb[i].msg].topic == T_PILL) { pi = i; break; }
             if (pi >= 0) {
                 int held = m->ever_batched; for (int q = 0; q < NPAT; q++) if (m->sub[q].present && m->sub[q].prio == PR_LOW) held = 1;
-                if (ON(R_PILL) && !held) for (int i = 0; i < pi; i++) if (!m->mb[i].optional && m->mb[i].kind == 0)
+                if (ON(R_PILL) && !held) for (int i = 0; i < pi; i++) if (!m->mb[i].optional && m->mb[i].kind == 0 && !owed_excused(s, i))      /* (a copy lost to a full mailbox is excused) */
                     vfail("PS.pill", "PS.pill|early", "poison pill stopped %s before message #%d, sent to it earlier, was handed over", m->name, m->mb[i].msg);
                 MSG[m->mb[pi].msg].owed--; mb_remove(s, pi);
                 mon_stop_effects(s); stop_notif_opt = 0; break;
